@@ -42,6 +42,8 @@ def jobs(tier):
             js.append({'name': 'verify tampered output nlines=%d pre_out=%s' % (nl, pl), 'harness': (H, 'h_verify'),
                        'params': {'nlines': nl, 'menu_name': 'small', 'pre_out_len': pl}})
     js += sched.jobs_c04(tier)
+    from . import project
+    js += project.jobs('C04', tier)
     return js
 
 
